@@ -20,7 +20,9 @@ PARTIAL = [
 def run(ctx):
     ctx.extra["rule"] = ("real BumpPool<A,S> (Global and a counting Send+Sync allocator with failure injection; up / down / min-align 8,16 / min chunk 128,4096) driven by "
                          "1 thread holding up to 12 guards (reproducible) and by 2-16 raw threads with up to 4 guards each: get / try_get / (try_)get_with_size / "
-                         "(try_)get_with_capacity (1/5 of the fallible ones with an armed construction failure), patterned allocations of 0..6000 bytes (also after a nested "
+                         "(try_)get_with_capacity (1/5 of the fallible ones with an armed construction failure; in half of the rounds 1/9 of the gets ask for a size/layout whose chunk size "
+                         "overflows: the try_ variants return Err, the panicking variants — under catch_unwind — panic INSIDE the critical section iff no idle arena exists and poison the "
+                         "pool mutex, after which everything continues on the poisoned pool), patterned allocations of 0..6000 bytes (also after a nested "
                          "scope through DerefMut), guard drops in random order, guards moved to other threads, mem::forget of a guard, yields/sleeps/spins, 1-3 rounds per case "
                          "separated by reset / reset_to_start / nothing, then drop of the pool; the history is ordered by lock tickets and replayed on the model; "
                          "distinct_nontrivial counts distinct linearised histories (hash of the case text)")
@@ -38,7 +40,8 @@ def run(ctx):
         ctx.partial.append(p)
     return finish(ctx, "pool model (get = pop-or-create, guard drop = push, forget, alloc through the owning guard, reset/reset_to_start/drop only without live guards): "
                        "for every finite step sequence — exclusivity, reuse before create (created <= peak of simultaneously live guards, none lost), contents only grow "
-                       "and only through the current owner (survive hand-over), reset/reset_to_start/drop apply the single-arena operation to every arena exactly once; "
+                       "and only through the current owner (survive hand-over), reset/reset_to_start/drop apply the single-arena operation to every arena exactly once; a refused or "
+                       "panicking get changes nothing, a guard drop returns its arena and nothing depends on the poison flag of the mutex; "
                        "tied to the code by replaying ticket-ordered histories of real multi-threaded runs; level: partial (atomicity and memory consistency are std Mutex + Send)")
 
 
